@@ -58,7 +58,10 @@ def check(case):
         tl = case["tl"]
         sim = SSCSimfile(string=simfile_text(tl))
         td = TimingData(sim)
-        grid = N.grid_from_ticks([tuple(n) for n in case["notes"]], case["cols"], nplayers=case["nplayers"])
+        if case.get("grid") is not None:
+            grid = case["grid"]
+        else:
+            grid = N.grid_from_ticks([tuple(n) for n in case["notes"]], case["cols"], nplayers=case["nplayers"])
         text = N.render(grid)
         nd = NoteData(text)
         exp_notes = N.expected_notes(grid)
@@ -91,50 +94,72 @@ def check(case):
         b = F(k, 48)
         need(eng.hittable(frac_beat(b)) == (not m.unhittable(b)), f"hittable({b}) changes when asked again in reverse order{ctx}")
 
+    # beats that are not tick-aligned (notes of 5-, 7-, 10-row measures ...): just beside every event beat, and every note
+    off = set()
+    for b in evb:
+        off.update((b + F(1, 240), b - F(1, 240), b + F(1, 100), b + F(1, 49), b + F(47, 48 * 49)))
+    if exp_notes is not None:
+        off.update(b for _p, b, _c, _t, _k in exp_notes)
+    for b in sorted(off):
+        evals += 1
+        got = eng.hittable(frac_beat(b))
+        need(got == (not m.unhittable(b)), f"hittable({b}) = {got}, expected {not m.unhittable(b)} (beat not on the tick grid){ctx}")
+
     # note timing
     src = list(nd)
     if exp_notes is not None:
         need(len(src) == len(exp_notes), f"note data decoded to {len(src)} notes, expected {len(exp_notes)}")
     labels = set()
     unhit_notes = 0
-    for opt_name in ("KEEP_NOTE", "DROP_NOTE", "TAP_TO_FAKE"):
-        opt = UnhittableNotes[opt_name]
-        out = list(time_notes(nd, td, opt))
-        expected = []
-        for i, n in enumerate(src):
-            if exp_notes is not None:
-                p, b, c, t, ks = exp_notes[i]
-            else:
-                p, b, c, t, ks = n.player, F(n.beat), n.column, n.note_type.value, n.keysound_index
-            un = m.unhittable(b)
-            if not un or opt_name == "KEEP_NOTE":
-                expected.append((p, b, c, t, ks, i))
-            elif opt_name == "TAP_TO_FAKE" and t == "1":
-                expected.append((p, b, c, "F", ks, i))
-            if un and opt_name == "KEEP_NOTE":
-                unhit_notes += 1
-                labels.add("unhittable-note")
-                if t == "1" and (p != 0 or ks is not None):
-                    labels.add("unhittable-tap-with-player-or-keysound")
-                if t != "1":
-                    labels.add("unhittable-non-tap")
-        need(
-            len(out) == len(expected),
-            f"time_notes({opt_name}) yielded {len(out)} notes, expected {len(expected)}{ctx}; notes {case.get('notes')}",
-        )
-        for tn, (p, b, c, t, ks, i) in zip(out, expected):
-            evals += 1
-            need(isinstance(tn, TimedNote) and isinstance(tn.note, Note), f"time_notes yielded {tn!r}")
-            n = tn.note
-            got = (n.player, F(n.beat), n.column, n.note_type.value, n.keysound_index)
-            need(
-                got == (p, b, c, t, ks),
-                f"time_notes({opt_name}) note #{i}: got (player, beat, column, type, keysound) = {got}, expected {(p, b, c, t, ks)}{ctx}",
-            )
-            if t != "F" or exp_notes is None or exp_notes[i][3] == "F":
-                pass
-            et = float(m.time(b, 5))
-            need(abs(float(tn.time) - et) <= TOL, f"time_notes({opt_name}) note #{i} at beat {b}: time {float(tn.time)!r}, exact {et!r}{ctx}")
+    passes = [(m, td, ctx)]
+    if not corpus:
+        # time_notes again on the same TimingData object after equal-length in-place edits: must answer for the edited data
+        from .c11 import edit_in_place
+
+        td_b = TimingData(SSCSimfile(string=simfile_text(tl)))
+        list(time_notes(nd, td_b, UnhittableNotes["DROP_NOTE"]))
+        tl_b = edit_in_place(tl, td_b, "replace")
+        passes.append((Model(tl_b), td_b, f"; TimingData object edited in place to {tl_b} after a first time_notes call, originally {tl}"))
+    for m, td, ctx in passes:
+      for opt_name in ("KEEP_NOTE", "DROP_NOTE", "TAP_TO_FAKE"):
+          opt = UnhittableNotes[opt_name]
+          out = list(time_notes(nd, td, opt))
+          expected = []
+          for i, n in enumerate(src):
+              if exp_notes is not None:
+                  p, b, c, t, ks = exp_notes[i]
+              else:
+                  p, b, c, t, ks = n.player, F(n.beat), n.column, n.note_type.value, n.keysound_index
+              un = m.unhittable(b)
+              if not un or opt_name == "KEEP_NOTE":
+                  expected.append((p, b, c, t, ks, i))
+              elif opt_name == "TAP_TO_FAKE" and t == "1":
+                  expected.append((p, b, c, "F", ks, i))
+              if un and opt_name == "KEEP_NOTE":
+                  unhit_notes += 1
+                  labels.add("unhittable-note")
+                  if t == "1" and (p != 0 or ks is not None):
+                      labels.add("unhittable-tap-with-player-or-keysound")
+                  if t != "1":
+                      labels.add("unhittable-non-tap")
+          need(
+              len(out) == len(expected),
+              f"time_notes({opt_name}) yielded {len(out)} notes, expected {len(expected)}{ctx}; notes {case.get('notes')}",
+          )
+          for tn, (p, b, c, t, ks, i) in zip(out, expected):
+              evals += 1
+              need(isinstance(tn, TimedNote) and isinstance(tn.note, Note), f"time_notes yielded {tn!r}")
+              n = tn.note
+              got = (n.player, F(n.beat), n.column, n.note_type.value, n.keysound_index)
+              need(
+                  got == (p, b, c, t, ks),
+                  f"time_notes({opt_name}) note #{i}: got (player, beat, column, type, keysound) = {got}, expected {(p, b, c, t, ks)}{ctx}",
+              )
+              if t != "F" or exp_notes is None or exp_notes[i][3] == "F":
+                  pass
+              et = float(m.time(b, 5))
+              need(abs(float(tn.time) - et) <= TOL, f"time_notes({opt_name}) note #{i} at beat {b}: time {float(tn.time)!r}, exact {et!r}{ctx}")
+    m = passes[0][0]
     labels |= {l for l in m.coincidences() if "warp" in l}
     return Verdict(nontrivial=unhit_notes > 0, labels=sorted(labels), evals=evals)
 
@@ -172,6 +197,48 @@ def s_case(draw):
     return {"tl": tl, "cols": cols, "nplayers": nplayers, "notes": notes}
 
 
+@st.composite
+def s_offtick(draw):
+    """a note on a beat that is not tick-aligned (odd row count), inside a warp, with a stop/delay on the tick just below
+    (or above) it: the pause does not sit on the note's beat, so the note stays unhittable"""
+    R = draw(st.sampled_from([5, 7, 9, 10, 11, 13, 14, 15, 20, 25, 36, 100]))
+    mi = draw(st.integers(0, 2))
+    rows = [r for r in range(1, R) if (F(4 * r, R) * 48).denominator != 1]
+    r = draw(st.sampled_from(rows))
+    beta = 4 * mi + F(4 * r, R)
+    t = int(beta * 48)  # tick just below the note
+    a = draw(st.integers(0, min(24, t)))
+    b = draw(st.integers(1, 30))
+    warps = [[t - a, a + b]]
+    pause_at = draw(st.sampled_from([[t], [t + 1], [t, t + 1], []]))
+    kind = draw(st.sampled_from(["stops", "delays", "both"]))
+    stops = [[k, "0.25"] for k in pause_at] if kind in ("stops", "both") else []
+    delays = [[k, "0.125"] for k in pause_at] if kind in ("delays", "both") else []
+    bpms = [[0, draw(st.sampled_from(["120", "60", "133.333"]))]]
+    if draw(st.booleans()):
+        bpms.append([draw(st.integers(1, max(1, t))), "240"])
+        bpms = sorted({k: v for k, v in bpms}.items())
+        bpms = [[k, v] for k, v in bpms]
+    tl = {"bpms": bpms, "stops": stops, "delays": delays, "warps": warps, "offset": draw(st.sampled_from(["0", "-0.009", "1.5"]))}
+    cols = 4
+    nplayers = draw(st.sampled_from([1, 2]))
+    players = []
+    for p in range(nplayers):
+        ms = []
+        for m_ in range(mi + 2):
+            if m_ == mi:
+                cells = [[r, draw(st.integers(0, 3)), draw(st.sampled_from("1112M4")), draw(st.one_of(st.none(), st.integers(0, 9)))]]
+                if draw(st.booleans()):
+                    cells.append([0, 0, "1", None])
+                if r + 1 < R and draw(st.booleans()):
+                    cells.append([r + 1, 1, "1", None])
+                ms.append({"rows": R, "cells": cells})
+            else:
+                ms.append({"rows": 4, "cells": [[draw(st.integers(0, 3)), 2, "1", None]]})
+        players.append(ms)
+    return {"tl": tl, "cols": cols, "nplayers": nplayers, "notes": None, "grid": {"cols": cols, "players": players, "deco": None}}
+
+
 def _place_iter(max_events):
     def it(shard, nshards):
         for i, tl in enumerate(G.placements_iter(max_events, shard, nshards)):
@@ -199,4 +266,5 @@ def parts(tier):
         {"name": "corpus", "kind": "fixed", "cases": corpus_cases},
         {"name": "placements", "kind": "enum", "iter": _place_iter(3 if q else 4), "exhaustive": True},
         {"name": "random", "kind": "hypothesis", "strategy": s_case, "examples": 1500 if q else 16 * 8000},
+        {"name": "off-tick-notes", "kind": "hypothesis", "strategy": s_offtick, "examples": 600 if q else 16 * 3000},
     ]
